@@ -148,3 +148,10 @@ package pcapgo
 //@   props C15
 //@   requires r.byteOrder != nil
 //@   ensures r.byteOrder != nil
+
+// A packet read with the allocating method owns its memory: neither the data nor the ancillary data (the link type of a
+// mixed-link-type file) live in storage the reader reuses for the next packet.
+//@ func (r *NgReader) ReadPacketDataWithOptions() (data []byte, ci gopacket.CaptureInfo, opts NgPacketOptions, err error)
+//@   props C14 C15
+//@   ensures err == nil && len(data) > 0 ==> fresh(data.arr)
+//@   ensures err == nil && r.options.WantMixedLinkType ==> len(ci.AncillaryData) == 1 && fresh(ci.AncillaryData.arr)
